@@ -1,4 +1,5 @@
 """C15 - Attachments are separately identified, correctly nested documents."""
+import re
 from harness import core, impl, model, gen, xmlsx, stages
 
 TRANSLATORS = ['parser', 'grammar', 'types', 'xml', 'libs']
@@ -19,7 +20,9 @@ ASSUMPTIONS = ['cobalt (FrbrUri, empty_meta) is outside /repo: represented by te
 def att_forest(rng, W, ind, depth, out):
     sp = '  ' * ind
     kw = rng.choice(gen.ATTACH)
-    out.append(sp + kw + gen.gen_attrs(rng, W, 0.1) + rng.choice(['', '', ' ' + gen.gen_inline(rng, W), ' Plain heading']))
+    # attributes that look like the generator's own bookkeeping: a name, an eId, a component path of another attachment
+    own = rng.choice(['{name annex}', '{name schedule}', '{name schedule_1/annexure}', '{eId att_9}', '{name attachment|eId att_1}', '.schedule{name x}']) if rng.random() < 0.12 else None
+    out.append(sp + kw + (own or gen.gen_attrs(rng, W, 0.1)) + rng.choice(['', '', ' ' + gen.gen_inline(rng, W), ' Plain heading']))
     if rng.random() < 0.3: out.append(sp + '  SUBHEADING ' + W.words(1, 3))
     gen.gen_blocks(rng, W, ind + 1, depth + 2, out, True, rng.randint(0, 2))
     if depth < 3:
@@ -94,6 +97,17 @@ def _oracle(args):
                 r = walk(a, comp, c2)
                 if r: return r
         return None
+    # the keyword of each attachment comes from the text, not from the document under test: when every attachment line of the text became
+    # an attachment, the k-th attachment in document order carries the k-th keyword
+    kws = [m.group(1).lower() for m in re.finditer(r'^ *(ATTACHMENT|APPENDIX|SCHEDULE|ANNEXURE)(?=[ .{]|$)', text, re.M)]
+    docs = [a.find(ns + 'doc') for a in xml.iter(ns + 'attachment')]
+    for d in docs:
+        if d is None or d.get('name') not in ('attachment', 'appendix', 'schedule', 'annexure'):
+            return ('bad', 'attachment document named %r: not one of the four keywords' % (None if d is None else d.get('name')), 0)
+    if len(kws) == len(docs):
+        for k, (kw, d) in enumerate(zip(kws, docs)):
+            if d.get('name') != kw:
+                return ('bad', 'attachment %d was written %s but its document is named %r' % (k + 1, kw.upper(), d.get('name')), 0)
     n = 0
     for atts in xml.iter(ns + 'attachments'):
         if any(a.tag == ns + 'attachment' for a in atts.iterancestors()): continue
